@@ -129,12 +129,13 @@ type Exec struct {
 	inputSet  map[string]bool
 	observes  []string
 
-	harness       *Harness
-	loopBound     int
-	allocLimit    int
-	monitorShared bool
-	inInit        bool
-	concrete      Model // non-nil: concrete differential run, nondets read from here
+	harness        *Harness
+	loopBound      int
+	allocLimit     int
+	monitorShared  bool
+	inInit         bool
+	concreteInputs bool
+	concrete       Model // non-nil: concrete differential run, nondets read from here
 
 	instrs       int64
 	findings     []*Finding
